@@ -2,7 +2,9 @@
 
 FIX_COMMITS = ['c5b9684 (C05 DataReader EOD==0)', 'c3bb002 (C17 ESC prefix on 1xx/3xx)', '832276a (C18 NUL in PROXY v1 address)',
                '57b9489 (C20 flatten raising on over-long 8-bit header lines)', '72f4152 (C07 421 after message data)',
-               '443d88b (C07/C08 transaction survives STARTTLS)', '32a1f33 (C09 size limit segmentation-dependent / oversize content executed)']
+               '443d88b (C07/C08 transaction survives STARTTLS)', '32a1f33 (C09 size limit segmentation-dependent / oversize content executed)',
+               '23d724d + 0580462 (C03/C01 delivered-index history, re-queue before marks stored)', '866c7e1 (C01 dict shadowing)',
+               '14c3a79 + f3319b7 (C12 flush)', '8c3f97c (C12 schedule list mutated during blocking spawn)']
 
 ENGINES = [
     {'name': 'runner', 'path': 'vf/runner.py', 'serves_properties': [],
@@ -10,6 +12,8 @@ ENGINES = [
                        'JSON delta-debugging of failing cases into replay files, known-findings handling, evidence'},
     {'name': 'smtp-session-model', 'path': 'vf/smtpmodel.py', 'serves_properties': ['C07', 'C09'],
      'kind_free_text': 'synchronous Server/SmtpEdge sessions on a scripted socket, verdicts encoded in command arguments, reference SMTP automaton, lock-step judge'},
+    {'name': 'queue-machine', 'path': 'vf/qm.py', 'serves_properties': ['C01', 'C03', 'C12', 'C13'],
+     'kind_free_text': 'real slimta Queue + real storage backend + scripted relay; every storage/relay call parks on a harness gate, scheduler on a virtual clock; JSON action histories interpreted robustly, reference model, fair drain'},
     {'name': 'reactive-peer', 'path': 'vf/props/c10.py', 'serves_properties': ['C10'],
      'kind_free_text': 'in-memory downstream that parses what the client sends and only then makes the scripted replies readable; a read when nothing is owed raises'},
     {'name': 'scripted-socket', 'path': 'vf/transport.py', 'serves_properties': ['C05', 'C17'],
@@ -98,6 +102,38 @@ CHECKS['C10'] = {
             'is owed is a violation; LMTP send_data must return exactly the 2xx recipients in order',
     'design_ref': 'DESIGN.md section 2 C10',
     'note': 'the peer is a conforming server answering in order; callers never abandon a transaction without DATA or RSET',
+}
+CHECKS['C01'] = {
+    'engine': 'queue-machine',
+    'level': 'exploration',
+    'technique': 'model-based stateful property testing: gated real Queue + backend + scripted relay on virtual time vs reference model; exhaustive outcome/sequence enumeration + Hypothesis histories + fair drain',
+    'text': 'accepted mail reaches a final disposition: reference model of per-recipient states vs the real Queue on real backends; every relay attempt must carry exactly the outstanding recipients, a message is never removed with outstanding recipients, and after a fair drain storage is empty and every recipient delivered or failed (bounce expected)',
+    'design_ref': 'DESIGN.md sections 1.4 and 2 C01',
+    'note': 'schedules explored at the granularity of storage/relay/timer gates; "eventually" judged by a bounded fair drain; known finding: bounded-pool deadlock (known_findings.json)',
+}
+CHECKS['C03'] = {
+    'engine': 'queue-machine',
+    'level': 'exploration',
+    'technique': 'model-based stateful property testing: gated real Queue + backend + scripted relay on virtual time vs reference model; exhaustive outcome/sequence enumeration + Hypothesis histories + fair drain',
+    'text': 'no relay attempt includes a recipient the model has settled (on any backend, over any number of partial rounds, after announcements / flush / clean restarts), and no two attempts of one message are open at the same time',
+    'design_ref': 'DESIGN.md sections 1.4 and 2 C03',
+    'note': 'schedules explored at the granularity of storage/relay/timer gates; "eventually" judged by a bounded fair drain; known finding: bounded-pool deadlock (known_findings.json)',
+}
+CHECKS['C12'] = {
+    'engine': 'queue-machine',
+    'level': 'exploration',
+    'technique': 'model-based stateful property testing: gated real Queue + backend + scripted relay on virtual time vs reference model; exhaustive outcome/sequence enumeration + Hypothesis histories + fair drain',
+    'text': 'no attempt starts before the due time last written to storage (unless flushed); at every quiescent point each stored message known to the running queue is in flight or has a scheduler timer not later than its due time; flush() returns; after the drain nothing is forgotten',
+    'design_ref': 'DESIGN.md sections 1.4 and 2 C12',
+    'note': 'schedules explored at the granularity of storage/relay/timer gates; "eventually" judged by a bounded fair drain; known finding: bounded-pool deadlock (known_findings.json)',
+}
+CHECKS['C13'] = {
+    'engine': 'queue-machine',
+    'level': 'exploration',
+    'technique': 'model-based stateful property testing: gated real Queue + backend + scripted relay on virtual time vs reference model; exhaustive outcome/sequence enumeration + Hypothesis histories + fair drain',
+    'text': 'the multiset of bounces produced (grouped by failure reply, exhaustion suffix) equals the model, each addressed only to the original sender, naming exactly the failed group, quoting the reply and embedding the original header block (and body) unchanged; none for an empty sender; each enqueued exactly once; no bounce loops',
+    'design_ref': 'DESIGN.md sections 1.4 and 2 C13',
+    'note': 'schedules explored at the granularity of storage/relay/timer gates; "eventually" judged by a bounded fair drain; known finding: bounded-pool deadlock (known_findings.json)',
 }
 
 NOT_APPLICABLE = {}
